@@ -46,3 +46,18 @@ def same_mesh_meta(Pin, Pout, nlev, what):
 def rows_equal(a, b):
     a = np.asarray(a, dtype=float); b = np.asarray(b, dtype=float)
     return a.shape == b.shape and bool(np.all((a == b) | (np.isnan(a) & np.isnan(b))))
+
+
+def level_header_matches_model(path, P, leanio):
+    """the FabOnDisk part of every level header of a written plotfile equals the Lean renderer's text
+    (up to the blank line before the min/max tables); returns the list of levels that differ"""
+    reqs = []
+    for lev in P["levels"]:
+        reqs.append({"op": "render_cellh", "nfields": len(P["fields"]),
+                     "rows": [{"lo": lo, "hi": hi, "file": f, "offset": o} for (lo, hi), (f, o) in zip(lev["idx"], lev["fab"])]})
+    bad = []
+    for lv, (lev, m) in enumerate(zip(P["levels"], leanio.driver(reqs))):
+        text = open(os.path.join(path, lev["cdir"], "Cell_H")).read()
+        if not text.startswith(m["text"]):
+            bad.append(lv)
+    return bad
